@@ -46,6 +46,10 @@ type Ident struct {
 var Epoch = time.Date(2000, 1, 1, 0, 0, 0, 0, time.UTC)
 
 func newIdent(seed string, cn string, isCA bool, parent *Ident, notBefore, notAfter time.Time, serial int64) *Ident {
+	return newIdentSAN(seed, cn, []string{"localhost"}, isCA, parent, notBefore, notAfter, serial)
+}
+
+func newIdentSAN(seed string, cn string, dnsNames []string, isCA bool, parent *Ident, notBefore, notAfter time.Time, serial int64) *Ident {
 	pub, priv, err := ed25519.GenerateKey(&detReader{seed: seed})
 	if err != nil {
 		panic(err)
@@ -59,7 +63,7 @@ func newIdent(seed string, cn string, isCA bool, parent *Ident, notBefore, notAf
 		ExtKeyUsage:           []x509.ExtKeyUsage{x509.ExtKeyUsageClientAuth, x509.ExtKeyUsageServerAuth},
 		BasicConstraintsValid: true,
 		IsCA:                  isCA,
-		DNSNames:              []string{"localhost"},
+		DNSNames:              dnsNames,
 	}
 	if isCA {
 		tmpl.KeyUsage |= x509.KeyUsageCertSign
@@ -112,6 +116,7 @@ type PKI struct {
 	// client identities
 	Right      *Ident // right CA, right name
 	WrongName  *Ident // right CA, wrong name
+	SANName    *Ident // right CA, wrong common name, but the rule's name (and a wildcard covering it) among its DNS alternative names
 	Expired    *Ident // right CA, right name, validity ended before the bubble epoch
 	SelfSigned *Ident // right name, self-signed
 	Foreign    *Ident // right name, foreign CA
@@ -141,6 +146,7 @@ func GetPKI() *PKI {
 	p.Foreign = newIdent("foreign", p.RuleName, false, p.ForeignCA, nb, na, 9)
 	p.ViaInter = newIdent("viainter", "intruder.verif", false, p.Intermediate, nb, na, 10)
 	p.ViaInter.Chain = [][]byte{p.ViaInter.DER, p.Intermediate.DER}
+	p.SANName = newIdentSAN("sanname", "intruder.verif", []string{p.RuleName, "*.verif", "localhost"}, false, p.CA, nb, na, 11)
 	pki = p
 	return p
 }
